@@ -176,8 +176,10 @@ def translate_lines(lines, heff, ops):
             out.append(f"(AOffsetNeed {max(int(a.group(1)), int(a.group(2))) + 1})" if a else "AUnknown")
         elif meth == "ContinueSet":
             out.append("ANop")
-        elif meth in ("ConsumeCustomDice", "CommitCustomDice"):
-            out.append("ANop")  # only reachable after PrepareCustomDice returned true (never, without custom dice)
+        elif meth == "ConsumeCustomDice":
+            out.append("ACustomConsume")
+        elif meth == "CommitCustomDice":
+            out += heff.get(meth) or ["AUnknown"]
         elif meth in ("BreakPush", "ContinuePush"):
             out += heff.get(meth, ["AUnknown"])
         elif meth in heff:
